@@ -8,7 +8,7 @@ def decode(string):
 unsafe_decode = decode
 
 def validate_encoded(string):
-  if not re.match(r"^[!-~]$", string):
+  if not re.match(r"^[!-~]\Z", string):
     raise gfapy.FormatError(
         "{} is not a single printable character string".format(repr(string)))
 
